@@ -5,6 +5,7 @@ package main
 // by every oracle that could object to it; each property adds runs aimed at its own clauses.
 
 import (
+	sdk "github.com/cosmos/cosmos-sdk/types"
 	"fmt"
 	"time"
 )
@@ -105,6 +106,7 @@ func init() {
 		runs = append(runs, RunSpec{Name: "fees-restart", Sc: restartable(scFees(paramSet("0.1", "0.001"), false, d, b, m-1)), Oracles: o})
 		runs = append(runs, RunSpec{Name: "huge-values", Sc: scHuge(paramSet("0.1", "0.001"), d-1, b, 2), Oracles: o})
 		runs = append(runs, slashAfterRefundRun(o, MonFlags{}), priceFractionsRun(o, MonFlags{}, d, b, 2))
+		runs = append(runs, RunSpec{Name: "module-accounts-created-on-first-use", Sc: scLazyAccounts(paramSet("0.1", "0.001"), 7, 3, 4), Oracles: o, Conform: -1})
 		// the owning module starts a context again from inside the "paused: insufficient balances" state callback (the
 		// invariant makes no assumption about who changed what, so it can run under any rig)
 		runs = append(runs, RunSpec{Name: "mod-restart-in-callback", Sc: scModRestart(defaultParams(), []Template{tMod1, tModPoor},
@@ -117,6 +119,7 @@ func init() {
 		d, b, m := bump(tier, 7, 4, 3)
 		runs = append(runs, RunSpec{Name: "fees", Sc: scFees(paramSet("0.5", "0.001"), false, d, b, m), Oracles: o})
 		runs = append(runs, RunSpec{Name: "fees-restart", Sc: restartable(scFees(paramSet("0.5", "0.001"), false, d, b, m-1)), Oracles: o})
+		runs = append(runs, govMaxTimeoutExtremesRun(o, MonFlags{}))
 		runs = append(runs, RunSpec{Name: "huge-values", Sc: scHuge(paramSet("0.1", "0.001"), d-1, b, 2), Oracles: o})
 		runs = append(runs, slashAfterRefundRun(o, MonFlags{}), priceFractionsRun(o, MonFlags{}, d, b, 2))
 		if tier == "thorough" {
@@ -193,6 +196,8 @@ func init() {
 		}
 		runs = append(runs, runsOf(lifeRuns(tier), o, MonFlags{})...)
 		runs = append(runs, RunSpec{Name: "bind-ops-time-jumps", Sc: timeJumps(scBind(defaultParams(), bindOpsSmall(), []Template{tSlash2}, []string{"bad"}, d, b, m-1)), Oracles: o})
+		// a provider answers a request it has already answered (refused), while the other provider's request stays open
+		runs = append(runs, RunSpec{Name: "life-second-response", Sc: withFunds(scLife(paramSet("0.1", "0.001"), []Template{tOne2, tRep2}, AlphaOpts{RespKinds: []string{"ok"}, RespWrong: true}, d-1, b, m), 40, 5), Oracles: o})
 		// slash fraction exactly 1: one failure takes the whole deposit
 		runs = append(runs, RunSpec{Name: "bind-ops+slash-all", Sc: scBind(paramSet("0.5", "1"), bindOpsSmall(), []Template{tSlash2}, []string{"bad"}, d-1, b, 2), Oracles: o})
 		if tier == "thorough" {
@@ -267,7 +272,9 @@ func init() {
 		}
 		lowMax := paramSet("0.1", "0.001")
 		lowMax.MaxTimeout, lowMax.Name = 1, "max-timeout-1"
-		runs = append(runs, RunSpec{Name: "life-max-timeout-lowered", Sc: withFunds(scLife(paramSet("0.1", "0.001"), []Template{tLong, tOne2}, AlphaOpts{RespKinds: []string{"ok"}, CtxOps: []string{"pause", "start"}, ParamChanges: []ParamSet{lowMax}}, d, b, m), 30, 5), Oracles: o, Mon: MonFlags{Req: true}})
+		tax15 := paramSet("1.5", "0.001") // a tax above the whole fee (refused by the unmodified parameter validators)
+		tax15.Name = "gov-tax-1.5"
+		runs = append(runs, RunSpec{Name: "life-max-timeout-lowered", Sc: withFunds(scLife(paramSet("0.1", "0.001"), []Template{tLong, tOne2}, AlphaOpts{RespKinds: []string{"ok"}, CtxOps: []string{"pause", "start"}, ParamChanges: []ParamSet{lowMax, tax15}}, d, b, m), 30, 5), Oracles: o, Mon: MonFlags{Req: true}})
 		runs = append(runs, runsOf(lifeRuns(tier), o, MonFlags{Req: true})...)
 		runs = append(runs, RunSpec{Name: "huge-values", Sc: scHuge(paramSet("0.1", "0.001"), d-2, b-1, 2), Oracles: o, Mon: MonFlags{Req: true}})
 		return runs
@@ -328,17 +335,7 @@ func init() {
 			runs = append(runs, RunSpec{Name: fmt.Sprintf("mod-start-siblings-in-callback(flip=%v)", fl), Sc: sc, Oracles: o})
 		}
 		// governance lifts the timeout bound to the largest value the parameter store accepts; calls then use it
-		{
-			g := paramSet("0.1", "0.001")
-			g.MaxTimeout, g.Name = 1<<63-1, "gov-max-timeout-maxint64"
-			g62 := paramSet("0.1", "0.001")
-			g62.MaxTimeout, g62.Name = 1<<62, "gov-max-timeout-2^62"
-			tm := []Template{{Name: "tmaxone", Consumer: "C1", Service: "a", Providers: []string{"P1"}, Cap: 5, Timeout: 1<<63 - 1},
-				{Name: "tmaxrep", Consumer: "C1", Service: "a", Providers: []string{"P2"}, Cap: 5, Timeout: 1<<63 - 1, Repeated: true, Freq: 0, Total: 2},
-				{Name: "t62one", Consumer: "C1", Service: "a", Providers: []string{"P1"}, Cap: 5, Timeout: 1 << 62},
-				{Name: "t62rep", Consumer: "C1", Service: "a", Providers: []string{"P2"}, Cap: 5, Timeout: 1 << 62, Repeated: true, Freq: 0, Total: 2}}
-			runs = append(runs, RunSpec{Name: "gov-max-timeout-extremes", Sc: withFunds(scLife(paramSet("0.1", "0.001"), tm, AlphaOpts{RespKinds: []string{"ok"}, CtxOps: []string{"pause", "start"}, ParamChanges: []ParamSet{g, g62}}, 6, 4, 3), 40, 5), Oracles: o})
-		}
+		runs = append(runs, govMaxTimeoutExtremesRun(o, MonFlags{}))
 		runs = append(runs, modSelfStartRun(o, MonFlags{}, d-1, b, m), timeoutBoundariesRun(o, MonFlags{}))
 		// the owning module answers the failed batch of one context by starting its other (paused) contexts (both processing orders)
 		for _, fl := range []bool{false, true} {
@@ -399,6 +396,11 @@ func init() {
 		runs = append(runs, RunSpec{Name: "two-services-one-provider", Sc: two, Oracles: o})
 		// governance raises the minimum deposit / the multiple while bindings exist: later operations are judged under the new values
 		for _, g := range []ParamSet{func() ParamSet { p := defaultParams(); p.MinDeposit, p.Name = 50, "gov-min-deposit-50"; return p }(),
+			func() ParamSet { // two denominations, not sorted (refused by the unmodified validator): the keeper would no longer find the base amount
+				p := defaultParams()
+				p.MinDepositCoins, p.Name = sdk.Coins{sdk.NewInt64Coin(denom, 10), sdk.NewInt64Coin("gas", 1)}, "gov-min-deposit-unsorted"
+				return p
+			}(),
 			func() ParamSet { p := defaultParams(); p.Multiple, p.Name = 4, "gov-multiple-4"; return p }()} {
 			sc := scBind(defaultParams(), nil, []Template{tSlash}, []string{"bad"}, d, b, m)
 			sc.Alpha = lifeAlpha(AlphaOpts{RespKinds: []string{"bad"}, ParamChanges: []ParamSet{g}, BindOps: []Action{
@@ -726,4 +728,16 @@ func twoContextsOneUnaffordableRuns(o []Oracle, d, b, m int) []RunSpec {
 func timeoutBoundariesRun(o []Oracle, mon MonFlags) RunSpec {
 	return RunSpec{Name: "timeout-zero-and-negative", Sc: withFunds(scMod(paramSet("0.1", "0.001"), []Template{tT0, tTneg, tModTneg, tOne},
 		AlphaOpts{RespKinds: []string{"ok"}}, 6, 4, 3), 40, 5), Oracles: o, Mon: mon}
+}
+
+func govMaxTimeoutExtremesRun(o []Oracle, mon MonFlags) RunSpec {
+	g := paramSet("0.1", "0.001")
+	g.MaxTimeout, g.Name = 1<<63-1, "gov-max-timeout-maxint64"
+	g62 := paramSet("0.1", "0.001")
+	g62.MaxTimeout, g62.Name = 1<<62, "gov-max-timeout-2^62"
+	tm := []Template{{Name: "tmaxone", Consumer: "C1", Service: "a", Providers: []string{"P1"}, Cap: 5, Timeout: 1<<63 - 1},
+		{Name: "tmaxrep", Consumer: "C1", Service: "a", Providers: []string{"P2"}, Cap: 5, Timeout: 1<<63 - 1, Repeated: true, Freq: 0, Total: 2},
+		{Name: "t62one", Consumer: "C1", Service: "a", Providers: []string{"P1"}, Cap: 5, Timeout: 1 << 62},
+		{Name: "t62rep", Consumer: "C1", Service: "a", Providers: []string{"P2"}, Cap: 5, Timeout: 1 << 62, Repeated: true, Freq: 0, Total: 2}}
+	return RunSpec{Name: "gov-max-timeout-extremes", Sc: withFunds(scLife(paramSet("0.1", "0.001"), tm, AlphaOpts{RespKinds: []string{"ok"}, CtxOps: []string{"pause", "start"}, ParamChanges: []ParamSet{g, g62}}, 6, 4, 3), 40, 5), Oracles: o, Mon: mon}
 }
